@@ -169,6 +169,8 @@ class Engine(ExprMixin, CallMixin, StmtMixin, Core):
                     # decorators.only_raises swallows it and returns None
                     o = Out("return", o.st, S.NONEV())
             self.exit_states.append(o)
+            if t.hints is not None:
+                o.st.assume(S.lift(t.hints(Ctx(self, o.st, old=self.entry_state))))
             if o.kind in ("normal", "return"):
                 n_normal += 1
                 res = o.val if o.kind == "return" else S.NONEV()
@@ -205,9 +207,13 @@ class Engine(ExprMixin, CallMixin, StmtMixin, Core):
                               info="an exception of class %s escapes (%s)" % (cls, (o.val.x or {}).get("note")))
                 else:
                     post = t.raises[key]
-                    if post is not None and post is not True:
-                        self.emit("raises", line, o.st, post(ctx), tag=key,
-                                  info="exception %s from L%d (%s)" % (cls, line, (o.val.x or {}).get("note")))
+                    info_ = "exception %s from L%d (%s)" % (cls, line, (o.val.x or {}).get("note"))
+                    if isinstance(post, dict):
+                        # named clauses: one obligation per clause (so that a known finding on one clause cannot mask another)
+                        for nm, fn in post.items():
+                            self.emit("raises", line, o.st, fn(ctx), tag="%s.%s" % (key, nm), info=info_)
+                    elif post is not None and post is not True:
+                        self.emit("raises", line, o.st, post(ctx), tag=key, info=info_)
                     if ("r", key) not in covered:
                         covered.add(("r", key))
                         self.emit_cover("cover.raises", line, o.st, tag=key)
